@@ -416,6 +416,20 @@ func main() {
 		}
 		dist["lib:index-limits"] = n
 	}
+	// import / include directives with metadata of every shape (the module loader reads `search`
+	// and the compiler the rest), through the command with and without -L, and modulemeta
+	{
+		metas := []string{"{}", "{search: 1}", "{search: null}", "{search: [1]}", "{search: [null]}", "{search: [\"a\", {}]}", "{search: []}", "{search: [[]]}", "{search: {}}", "{search: \"\"}", "{search: [\"\"]}", "{search: \"~/x\"}", "{search: [\"~\", \"$ORIGIN/x\"]}", "{search: true}", "{\"search\": [1.5]}", "{search: \"./\", a: [1, {b: null}]}", "{a: 1, search: [\"x\", \"y\"]}", "{search: \"\\u0000\"}", "{raw: true}", "{optional: true}", "{search: [\"a\"], search: 1}"}
+		n := 0
+		for _, m := range metas {
+			for _, form := range []string{"import \"m\" as m %M; .", "include \"m\" %M; .", "import \"d\" as $d %M; $d", "import \"m\" as m %M; import \"d\" as $d %M; [$d, m::f?]", "\"m\" | modulemeta"} {
+				src := strings.ReplaceAll(form, "%M", m)
+				cases = append(cases, caseT{Kind: "cli", Args: []string{"-n", src}}, caseT{Kind: "cli", Args: []string{"-n", "-L", ".", src}}, caseT{Kind: "cli", Args: []string{"-n", "-L", "", "-L", "/nonexistent", src}})
+				n += 3
+			}
+		}
+		dist["cli:import-metadata"] = n
+	}
 	// code points at every boundary of Unicode and UTF-16 (surrogates high/low, in and out of order,
 	// first and last of each range), in every position of the array given to implode, and the
 	// strings they make through the string natives
